@@ -67,29 +67,55 @@ ErasePosOps == {"erase_pos", "erase_cpos"}                               \* eras
 SwapOps == {"swap", "fswap"}
 CtorSetOps == {"ctor_default", "ctor_range", "ctor_cont", "ctor_su_cont", "ctor_su_range"}
 MsOps == {"ms_ctor_default", "ms_ctor_cont", "ms_ctor_sorted"}
-AllOps == InsOps \cup HintOps \cup ErasePosOps \cup SwapOps \cup CtorSetOps \cup MsOps \cup
+CopyOps == {"copy_assign", "ctor_copy"}                                  \* o = src ; new (o) V(src)
+MoveOps == {"move_assign", "ctor_move"}                                  \* o = move(src) ; new (o) V(move(src))
+EraseIfOps == {"erase_if_odd", "erase_if_eq"}                            \* free erase_if(o, pred) -> erased count
+AllOps == InsOps \cup HintOps \cup ErasePosOps \cup SwapOps \cup CtorSetOps \cup MsOps \cup CopyOps \cup MoveOps \cup EraseIfOps \cup
           {"insert_range", "insert_su_range", "erase_key", "erase_range", "clear", "extract", "replace"}
+
+\* Moved-from objects (mv = set of object names): "valid but unspecified".  Such an object only has to stay
+\* within capacity; it must accept clear, assignment and re-construction with their normal meaning (the
+\* reviving operations, whose effect does not depend on the old contents) and insert (whose result is then
+\* unspecified as well, so only the capacity bound is demanded of it).
+RevivingOps == {"clear", "replace"} \cup CopyOps \cup MoveOps \cup CtorSetOps \cup MsOps
+MvAfter(op, o, x, mv) ==
+    IF op \in MoveOps THEN (mv \ {o}) \cup {x.src} ELSE IF op \in RevivingOps THEN mv \ {o} ELSE mv
+Odd(v) == v % 2 = 1
+EraseIfPred(op, x, v) == IF op = "erase_if_odd" THEN Odd(v) ELSE v = x.v
+\* relational operators between two sets: lexicographic comparison of the iteration sequences with the
+\* element's own operator< / operator== ([container.requirements]; the set's comparator is not used)
+LexLess(q, t) ==
+    \E k \in 0..(IF Len(q) < Len(t) THEN Len(q) ELSE Len(t)) :
+        /\ \A i \in 1..k : q[i] = t[i]
+        /\ \/ k = Len(q) /\ k < Len(t)
+           \/ k < Len(q) /\ k < Len(t) /\ q[k + 1] < t[k + 1]
 
 \* a state the family can be in: what the property calls "sorted and unique" (weakly sorted for the multiset)
 ObjOK(kind, cmp, cap, e) == Len(e) <= cap /\ IF kind = "fmset" THEN WeakAsc(cmp, e) ELSE StrictAsc(cmp, e)
 StateOK(kind, cmp, cap, s) == ObjOK(kind, cmp, cap, s.a) /\ ObjOK(kind, cmp, cap, s.b)
+StateOKmv(kind, cmp, cap, s, mv) ==
+    \A p \in {"a", "b"} : IF p \in mv THEN Len(s[p]) <= cap ELSE ObjOK(kind, cmp, cap, s[p])
 
 \* inserting a new key into a full set
 FullNew(e, cap, v) == Len(e) >= cap /\ v \notin Elems(e)
 
 \* ---- precondition: the call is inside the domain the property quantifies over ----------------------
-Pre(op, o, x, s, cap, cmp, kind) ==
+Pre(op, o, x, s, cap, cmp, kind, mv) ==
     LET e == s[o] n == Len(s[o]) IN
-    CASE op \in InsOps -> kind = "sset" \/ ~FullNew(e, cap, x.v)
-      [] op \in HintOps -> x.p \in 0..n /\ ~FullNew(e, cap, x.v)
-      [] op = "insert_range" -> Cardinality(Elems(e) \cup Elems(x.xs)) <= cap
-      [] op = "insert_su_range" -> Cardinality(Elems(e) \cup Elems(x.xs)) <= cap /\ StrictAsc(cmp, x.xs)
-      [] op \in ErasePosOps -> x.p \in 0..(n - 1)
-      [] op = "erase_range" -> x.p \in 0..n /\ x.q \in x.p..n
-      [] op \in {"replace", "ctor_su_cont", "ctor_su_range"} -> Len(x.xs) <= cap /\ StrictAsc(cmp, x.xs)
-      [] op \in {"ctor_range", "ctor_cont", "ms_ctor_cont"} -> Len(x.xs) <= cap
-      [] op = "ms_ctor_sorted" -> Len(x.xs) <= cap /\ WeakAsc(cmp, x.xs)
-      [] OTHER -> op \in AllOps
+    /\ o \in mv => (op \in RevivingOps \/ (op = "insert_copy" /\ (kind = "sset" \/ n < cap)))
+    /\ op \in CopyOps \cup MoveOps => (x.src # o /\ x.src \notin mv)
+    /\ op \in SwapOps => x.src \notin mv
+    /\ (o \in mv /\ op = "insert_copy") \/
+       (CASE op \in InsOps -> kind = "sset" \/ ~FullNew(e, cap, x.v)
+         [] op \in HintOps -> x.p \in 0..n /\ ~FullNew(e, cap, x.v)
+         [] op = "insert_range" -> Cardinality(Elems(e) \cup Elems(x.xs)) <= cap
+         [] op = "insert_su_range" -> Cardinality(Elems(e) \cup Elems(x.xs)) <= cap /\ StrictAsc(cmp, x.xs)
+         [] op \in ErasePosOps -> x.p \in 0..(n - 1)
+         [] op = "erase_range" -> x.p \in 0..n /\ x.q \in x.p..n
+         [] op \in {"replace", "ctor_su_cont", "ctor_su_range"} -> Len(x.xs) <= cap /\ StrictAsc(cmp, x.xs)
+         [] op \in {"ctor_range", "ctor_cont", "ms_ctor_cont"} -> Len(x.xs) <= cap
+         [] op = "ms_ctor_sorted" -> Len(x.xs) <= cap /\ WeakAsc(cmp, x.xs)
+         [] OTHER -> op \in AllOps)
 
 \* ---- effect on the target object, return value, container handed out -------------------------------
 Tgt(op, o, x, s, cap, cmp) ==
@@ -109,7 +135,9 @@ Tgt(op, o, x, s, cap, cmp) ==
       [] op \in ErasePosOps -> T(Cut(e, x.p, x.p + 1), R(x.p, 0))
       [] op = "erase_range" -> T(Cut(e, x.p, x.q), R(x.p, 0))
       [] op \in {"clear", "ctor_default", "ms_ctor_default"} -> T(<<>>, R(0, 0))
-      [] op \in SwapOps -> T(s[x.src], R(0, 0))
+      [] op \in SwapOps \cup CopyOps \cup MoveOps -> T(s[x.src], R(0, 0))
+      [] op \in EraseIfOps -> T(SelectSeq(e, LAMBDA v : ~EraseIfPred(op, x, v)),
+                                R(0, Cardinality({i \in 1..n : EraseIfPred(op, x, e[i])})))
       [] op = "extract" -> [els |-> <<>>, ret |-> R(0, 0), out |-> e]
       [] op \in {"replace", "ctor_su_cont", "ctor_su_range", "ms_ctor_sorted"} -> T(x.xs, R(0, 0))
       [] op \in {"ctor_range", "ctor_cont"} -> T(SeqOf(cmp, Elems(x.xs)), R(0, 0))
@@ -122,19 +150,24 @@ Eff(op, o, x, s, cap, cmp) ==
      ret |-> t.ret, out |-> t.out]
 
 \* the relation a recorded (post, ret, out) has to satisfy: the state part ...
-PostState(op, o, x, s, cap, cmp, t) ==
+PostState(op, o, x, s, cap, cmp, t, mv) ==
     IF op = "ms_ctor_cont"
     THEN SortedPerm(cmp, x.xs, t[o]) /\ \A p \in {"a", "b"} \ {o} : t[p] = s[p]
+    ELSE IF o \in mv /\ op = "insert_copy"                    \* insert into a moved-from set: unspecified, but valid
+    THEN Len(t[o]) <= cap /\ \A p \in {"a", "b"} \ {o} : t[p] = s[p]
+    ELSE IF op \in MoveOps                                    \* the source is left valid but unspecified
+    THEN t[o] = s[x.src] /\ Len(t[x.src]) <= cap
     ELSE t = Eff(op, o, x, s, cap, cmp).st
 \* ... and the returned iterator / flag / count / container
-PostRet(op, o, x, s, cap, cmp, r, out) ==
+PostRet(op, o, x, s, cap, cmp, r, out, mv) ==
     LET ef == Eff(op, o, x, s, cap, cmp) IN
+    (o \in mv /\ op = "insert_copy") \/
     /\ IF op \in InsOps /\ FullNew(s[o], cap, x.v)
        THEN r.n = 0                      \* "reports failure": which iterator accompanies it is left open
        ELSE r = ef.ret
     /\ out = ef.out
-Post(op, o, x, s, cap, cmp, t, r, out) ==
-    PostState(op, o, x, s, cap, cmp, t) /\ PostRet(op, o, x, s, cap, cmp, r, out)
+Post(op, o, x, s, cap, cmp, t, r, out, mv) ==
+    PostState(op, o, x, s, cap, cmp, t, mv) /\ PostRet(op, o, x, s, cap, cmp, r, out, mv)
 
 \* ---- observers: functions of the abstract contents only --------------------------------------------
 \* Observer groups (a deviation names the group, so that a known defect in one group cannot hide another):
@@ -174,13 +207,27 @@ ObsGroupOne(g, ob, e, cmp, cap, univ) ==
       [] g = "hfind" -> "hlk" \in DOMAIN ob => Probed(ob.hlk, univ, LAMBDA r : FindOK(r, e, cmp))
       [] g = "hbound" -> "hlk" \in DOMAIN ob => Probed(ob.hlk, univ, LAMBDA r : BoundOK(r, e, cmp))
 
-ObsGroupOK(g, obs, t, cmp, cap, univ) ==
-    ObsGroupOne(g, obs.a, t.a, cmp, cap, univ) /\ ObsGroupOne(g, obs.b, t.b, cmp, cap, univ)
+\* lookups are defined on sorted contents: they are not judged on a moved-from object
+LookupGroups == {"find", "bound", "hfind", "hbound"}
+ObsGroupOK(g, obs, t, cmp, cap, univ, mv) ==
+    \A p \in {"a", "b"} : (g \in LookupGroups /\ p \in mv) \/ ObsGroupOne(g, obs[p], t[p], cmp, cap, univ)
+
+\* obs.cmp = <<a == b, a != b, a < b, a <= b, a > b, a >= b>> (only the operators the type declares: rel names them)
+RelOK(obs, t) ==
+    "rel" \in DOMAIN obs =>
+        \A j \in 1..Len(obs.rel) :
+            LET r == obs.rel[j] IN
+            r.v = CASE r.op = "eq" -> t.a = t.b
+                    [] r.op = "ne" -> t.a # t.b
+                    [] r.op = "lt" -> LexLess(t.a, t.b)
+                    [] r.op = "le" -> ~LexLess(t.b, t.a)
+                    [] r.op = "gt" -> LexLess(t.b, t.a)
+                    [] r.op = "ge" -> ~LexLess(t.a, t.b)
 
 \* the groups that deviate (sequence of "obs-<group>")
-ObsBad(obs, t, cmp, cap, univ) ==
-    LET bad == SelectSeq(ObsGroups, LAMBDA g : ~ObsGroupOK(g, obs, t, cmp, cap, univ)) IN
-    [j \in 1..Len(bad) |-> "obs-" \o bad[j]]
+ObsBad(obs, t, cmp, cap, univ, mv) ==
+    LET bad == SelectSeq(ObsGroups, LAMBDA g : ~ObsGroupOK(g, obs, t, cmp, cap, univ, mv)) IN
+    [j \in 1..Len(bad) |-> "obs-" \o bad[j]] \o (IF RelOK(obs, t) THEN <<>> ELSE <<"obs-rel">>)
 
 \* what the observers should have answered (for deviation reports)
 LkExp(e, cmp, k) ==
